@@ -305,15 +305,15 @@ class SgzConverter(SgzReader):
 
         # seimcic-zfp stores the binary header from the source SEG-Y file.
         # In case someone forgot to do this, give them IBM float
-        data_sample_format_code = bytes_to_int(
-            self.headerbytes[DISK_BLOCK_BYTES+3225: DISK_BLOCK_BYTES+3227])
+        data_sample_format_code = int.from_bytes(
+            self.headerbytes[DISK_BLOCK_BYTES+3224: DISK_BLOCK_BYTES+3226], byteorder='big')
         file_header = self.headerbytes[DISK_BLOCK_BYTES: DISK_BLOCK_BYTES + SEGY_FILE_HEADER_BYTES]
         if data_sample_format_code in [1, 5]:
             spec.format = data_sample_format_code
         else:
             # Only the exported file gets the format code, the reader's own copy of the SGZ header stays as it is
             file_header = bytearray(file_header)
-            file_header[3225: 3227] = int_to_bytes(1)[:2]
+            file_header[3224: 3226] = (1).to_bytes(2, byteorder='big')
             spec.format = 1
 
         self.write_segy(spec, out_file, bytes(file_header))
